@@ -12,7 +12,7 @@
    all clock values, SPL and Token-2022 mints with any transfer fee; and lift it to histories of any length. *)
 Require Import Base Constants Fixed Curve Bank BankOps Risk TransferFee Handlers.
 Require Import FixedLemmas BankLemmas AccrualLemmas SolvencyLemmas LedgerLemmas HandlerEffects SolvencyHandlers SolvencyWorld HandlerWorld WorldCheck WorldCheckLemmas.
-Require Import PrivGen Deleverage PurgeLedger.
+Require Import PrivGen Deleverage PurgeLedger DeleverageWorld.
 Local Open Scope Z_scope.
 
 (* one successful instruction: for every bank, the gap falls by at most the rounding allowance of that
@@ -128,6 +128,31 @@ Theorem C01_purge_gap :
     (forall k, k <> b -> nth_bank w' k = nth_bank w k).
 Proof. exact purge_gap. Qed.
 
+(* Forced deleverage (risk admin): the withdrawal and the repayment inside start_deleverage .. end_deleverage obey the
+   same per-instruction gap bounds as the ordinary withdraw / repay (the only sanctioned drop is the token-less write-off
+   of a sunset bank), and the whole transaction keeps the world well-formed, so the history theorem's hypotheses hold
+   again after it *)
+Theorem C01_deleverage_withdraw_gap :
+  forall w c a r b amount all w' c',
+  0 <= amount -> HOk2 w -> dv_withdraw w c a r b amount all = Ok (w', c') ->
+  exists hb hb', nth_bank w b = Ok hb /\ nth_bank w' b = Ok hb' /\
+    gap hb - acc_slack w hb - sv_slack w hb <= gap hb' /\
+    (forall k, k <> b -> nth_bank w' k = nth_bank w k).
+Proof. exact dv_withdraw_gap. Qed.
+
+Theorem C01_deleverage_repay_gap :
+  forall w a r b amount all w',
+  0 <= amount -> HOk2 w -> dv_repay w a r b amount all = Ok w' ->
+  exists hb hb', nth_bank w b = Ok hb /\ nth_bank w' b = Ok hb' /\
+    (gap hb - acc_slack w hb - (if all then ONE else 0) <= gap hb' \/ tokenless_writeoff w hb all) /\
+    (forall k, k <> b -> nth_bank w' k = nth_bank w k).
+Proof. exact dv_repay_gap. Qed.
+
+Theorem C01_deleverage_tx_keeps_world :
+  forall w c a r signs steps w' c',
+  Forall dstep_ok steps -> HOk2 w -> dv_tx w c a r signs steps = Ok (w', c') -> HOk2 w'.
+Proof. exact dv_tx_keeps_world. Qed.
+
 Print Assumptions C01_step.
 Print Assumptions C01_allowance_is.
 Print Assumptions C01_accrual_allowance.
@@ -137,3 +162,6 @@ Print Assumptions C01_hypotheses_checkable.
 Print Assumptions C01_history.
 Print Assumptions C01_history_given_wellformed_states.
 Print Assumptions C01_purge_gap.
+Print Assumptions C01_deleverage_withdraw_gap.
+Print Assumptions C01_deleverage_repay_gap.
+Print Assumptions C01_deleverage_tx_keeps_world.
